@@ -3,10 +3,11 @@
     strings, byte slices, times in both forms, null types, pointers, structs
     nested to any depth, packed slices of scalars, counted slices of
     length-delimited elements (incl. slices of structs, of strings, of packed
-    slices), maps (entries merged by key, in wire order), and - as struct
+    slices), maps (entries merged by key, in wire order), the JSON-any codecs,
+    and - as struct
     fields - the protobuf repeated-field form of slices and maps.  PARTIAL:
     outside the fragment are nil / null.* / BQ elements of scalar slices
-    (findings D24), the BigQuery / JSON codecs (JSON: C16's theorems) and the
+    (findings D24), the BigQuery codec and the
     repeated forms anywhere but directly in a struct field ([top_ok]: finding
     D12); those are decided by the correspondence.  The documented
     normalisations show up as the [canon] hypothesis (an omitted plain field
